@@ -466,6 +466,13 @@ func (g *vcgen) call2(v ssa.Value, c *ssa.CallCommon, args []string) []string {
 	}
 	// dynamic call of a function value
 	fv := g.val(c.Value)
+	if par, ok := c.Value.(*ssa.Parameter); ok && g.fc != nil && flagHas(g.fc.Flags["pureparam"], par.Name()) {
+		// a parameter declared pure: the call is an application of an uninterpreted function of (closure, arguments)
+		sig := c.Signature()
+		if sig.Results().Len() == 1 {
+			return []string{g.applyTerm(sig, fv, args)}
+		}
+	}
 	if mc, ok := g.closures[fv]; ok {
 		var binds []string
 		for _, bv := range mc.Bindings {
@@ -843,6 +850,28 @@ func (g *vcgen) applyContract(fc *FuncContract, fn *ssa.Function, sig *types.Sig
 	}
 	pre := g.st.clone()
 	envPre := g.contractEnv(fc, fn, sig, args, binds, nil, g.st, nil)
+	if pp := fc.Flags["pureparam"]; pp != "" && fn != nil {
+		off := 0
+		if sig.Recv() != nil {
+			off = 1
+		}
+		for k := 0; k < sig.Params().Len(); k++ {
+			if !flagHas(pp, sig.Params().At(k).Name()) || off+k >= len(args) {
+				continue
+			}
+			okPure := "false"
+			if mc, isClo := g.closures[args[off+k]]; isClo {
+				if cf, ok := mc.Fn.(*ssa.Function); ok {
+					if cc := g.eng.ContractOf(cf); cc != nil {
+						if _, pure := cc.Flags["pure"]; pure && cc.HasModifies && len(cc.Modifies) == 0 {
+							okPure = "true"
+						}
+					}
+				}
+			}
+			g.obligeAt("pre", calleeShort+":pure("+sig.Params().At(k).Name()+")", site, okPure, "the function value passed must be a closure whose contract is 'pure' with 'modifies nothing'")
+		}
+	}
 	for i, r := range fc.Requires {
 		t, err := envPre.EvalBool(r.Expr)
 		if err != nil {
@@ -1641,4 +1670,74 @@ func (e *Engine) libraryFuncField(v ssa.Value) string {
 		return ""
 	}
 	return key
+}
+
+func flagHas(list, name string) bool {
+	for _, f := range strings.Fields(strings.ReplaceAll(list, ",", " ")) {
+		if f == name {
+			return true
+		}
+	}
+	return false
+}
+
+// applyTerm: apply.<signature>(closure, args...) — the value a pure function value returns
+func (g *vcgen) applyTerm(sig *types.Signature, fv string, args []string) string {
+	var ps []string
+	ps = append(ps, "Int")
+	name := "apply"
+	for i := 0; i < sig.Params().Len(); i++ {
+		srt := g.s.sortOf(sig.Params().At(i).Type())
+		ps = append(ps, srt)
+		name += "." + strings.Trim(srt, "|")
+	}
+	rs := g.s.sortOf(sig.Results().At(0).Type())
+	name += ".." + strings.Trim(rs, "|")
+	fn := q(name)
+	g.declareFun(fn, ps, rs)
+	return fmt.Sprintf("(%s %s)", fn, strings.Join(append([]string{fv}, args...), " "))
+}
+
+// pureClosureAxiom: a closure whose contract is flagged pure behaves like the function its ensures clauses describe,
+// for all arguments (captured variables are read at creation time).
+func (g *vcgen) pureClosureAxiom(mc *ssa.MakeClosure) {
+	fn, ok := mc.Fn.(*ssa.Function)
+	if !ok {
+		return
+	}
+	fc := g.eng.ContractOf(fn)
+	if fc == nil {
+		return
+	}
+	if _, pure := fc.Flags["pure"]; !pure {
+		return
+	}
+	sig := fn.Signature
+	if sig.Results().Len() != 1 {
+		return
+	}
+	var binders, args, binds []string
+	for i := 0; i < sig.Params().Len(); i++ {
+		sym := q(fmt.Sprintf("pa.%d", i))
+		binders = append(binders, fmt.Sprintf("(%s %s)", sym, g.s.sortOf(sig.Params().At(i).Type())))
+		args = append(args, sym)
+	}
+	for _, b := range mc.Bindings {
+		binds = append(binds, g.val(b))
+	}
+	res := g.applyTerm(sig, g.vals[mc], args)
+	env := g.contractEnv(fc, fn, sig, args, binds, []string{res}, g.st, g.st)
+	for _, e := range fc.Ensures {
+		t, err := env.EvalBool(e.Expr)
+		if err != nil {
+			g.unsupported("pure closure %s: %v", fc.FullName(), err)
+			continue
+		}
+		if len(binders) == 0 {
+			g.assume(t)
+		} else {
+			g.assume(fmt.Sprintf("(forall (%s) %s)", strings.Join(binders, " "), t))
+		}
+	}
+	g.u.UsedContracts[fc.FullName()] = true
 }
